@@ -1,6 +1,7 @@
 import RsslVerif.Model.Targets
 import RsslVerif.Model.SimplifyCbuffers
 import RsslVerif.Model.HlslModule
+import RsslVerif.Model.CompileSteps
 import RsslVerif.Driver.C17
 import RsslVerif.Driver.Util
 /-! Line-protocol front end of the C18 models (define list, compact macro model, reflected bindings, stage reports). -/
@@ -13,6 +14,7 @@ def parseTarget (s : String) : Option (Target × Bool) :=
   else if s == "vk" then some (.HlslForVulkan, false)
   else if s == "vkba" then some (.HlslForVulkan, true)
   else if s == "msl" then some (.Msl, false)
+  else if s == "mtlb" then some (.MetalBytecode, false)
   else none
 
 def targetNames : List String := ["dx", "vk", "vkba", "msl"]
@@ -207,14 +209,54 @@ def parseVerdicts (s : String) : List (String × String) :=
     | [a, b] => some (a, b)
     | _ => none
 
+open RsslVerif.Model.CompileSteps in
+/-- The verdict of the fifth configuration (MetalBytecode), *predicted* by running `Model.CompileSteps.compile` - the
+    interpreter of the step lists extracted from src/compile.rs - in a world that behaves like the observed Msl run: the
+    front end rejects iff Msl's verdict is a front-end one, the module has `npipes` pipelines, Metal's exporter refuses
+    pipeline `mslbad`, and the tool chain is present or not as the harness found it on the host. -/
+def predictMtlb (mslClass : String) (npipes : Nat) (mslbad : Option Nat) (toolPresent : Bool) : String :=
+  let w : World Unit Unit Unit Nat Unit :=
+    { ev := fun _ => some true, render := fun _ => "front", prepare := fun _ => (),
+      parse := fun _ => if mslClass == "front" then .error "front" else .ok (),
+      typeCheck := fun _ => .ok (), layoutCheck := fun _ => .ok (),
+      pipelines := fun _ => List.range npipes,
+      exportHlsl := fun _ _ _ _ => .ok (),
+      exportMsl := fun _ _ p => if some p == mslbad then .error "back" else .ok (),
+      toolchain := if toolPresent then some (fun s => some s) else none }
+  match compile w ⟨.MetalBytecode, false, false, ⟨[], []⟩⟩ with
+  | .ok _ => "ok"
+  | .error (.text s) => if s == "back" then "back" else "front"
+  | .error .metalCompilerNotFound => "tool"
+  | .error .metalCompilerFailed => "toolfail"
+  | .error .invalidArgs => "front"
+  | .error .stuck => "model:stuck"
+
 def handleCross (decls pipes verdicts : String) : String :=
   match parseDecls decls, parsePipes pipes with
   | some ds, some ps =>
     let vs := parseVerdicts verdicts
-    " ".intercalate (targetNames.map fun n =>
+    let four := targetNames.map fun n =>
       match parseTarget n with
       | some (t, sba) => showTarget n t sba ((vs.lookup n).getD "?") ds ps
-      | none => "?")
+      | none => "?"
+    -- requests of the four-target form (no `tool=` field) are answered as before
+    match vs.lookup "tool" with
+    | none => " ".intercalate four
+    | some tool =>
+      let mslClass := (vs.lookup "msl").getD "?"
+      let bad : Option (Option Nat) :=
+        if mslClass == "back" then ((vs.lookup "mslbad").bind String.toNat?).map some
+        else if mslClass == "ok" || mslClass == "front" then some none else none
+      match bad with
+      | none => "unsupported: the Msl run neither accepts nor rejects (panic, or the refused pipeline is unknown)"
+      | some mslbad =>
+        -- the request lists the pipelines only when some target accepted the file: an accepted file has at least one,
+        -- and a file whose pipeline `k` Metal refused has at least `k + 1`
+        let n := match mslbad with
+          | some k => max ps.length (k + 1)
+          | none => if mslClass == "ok" && ps.length == 0 then 1 else ps.length
+        let cls := predictMtlb mslClass n mslbad (tool == "present")
+        " ".intercalate (four ++ [showTarget "mtlb" .MetalBytecode false cls ds ps])
   | _, _ => "bad-request"
 
 /-! ### C18.simplify: the program encoding of harness/src/c17/wgen.rs, resource items only -/
